@@ -136,3 +136,13 @@ claim("C07",
       note="_constraint_association (distance and gain) is an ASSUMED contract: the counting argument over its three nested randomised loops is not proved. "
            "Known finding: 'gain' is unbalanced when n mod k >= 2.",
       technique="deductive verification of the quota arithmetic and driver invariants (z3); the size postcondition only by exhaustive bounded enumeration")
+claim("C04",
+      text="Proof: (1) the prediction methods under contract (PiecewiseRegressor.predict, PiecewiseClassifier.predict/predict_proba, the decision-tree-of-"
+           "classifiers node methods, SkBaseTransformLearner.transform, TransferTransformer.transform, IntervalRegressor.predict_all) all have a row-wise "
+           "postcondition out[r] = G(model, X[r]) - re-verified under this property; (2) a generic lemma over those contracts: a row-wise postcondition "
+           "gives any sub-batch, permutation, repetition or single row the same outputs as inside the batch; (3) clone_with_fitted_parameters (estimator / "
+           "list / dict, nested estimators): every parameter and fitted or private attribute is deep-copied, nested estimators cloned recursively, argument "
+           "untouched. Bounded (compiled code): 18 fitted estimators x {repeat, permutation, sub-batch, single rows incl. unseen buckets, pickle, clone helper}.",
+      note="Pickling is not applicable to the proof (bounded only). Row-wise behaviour of scikit-learn estimators themselves is the assumed estimator "
+           "protocol. Balanced prediction of ConstraintKMeans is the documented exception.",
+      technique="deductive verification: row-wise postconditions + a lemma over contracts, structural recursion of the clone helper; z3")
